@@ -151,7 +151,7 @@ func c05Record(col *collector, c c05Case) {
 
 func TestC05Exhaustive(t *testing.T) {
 	col := coll("C05", "exhaustive")
-	maxN := pick(5, 7)
+	maxN := pick(5, 8)
 	col.Rule = fmt.Sprintf("all forests <=%d nodes over {a,b} x every stop position k (and no stop) x entry points (md for every forest; root, iter and the deprecated aliases for single-root forests) x rotating branch/spelling panel", maxN)
 	i, rot := 0, 0
 	model.EnumForests(maxN, []string{"a", "b"}, func(f model.Forest) {
